@@ -7,8 +7,8 @@
    not yet covered by a theorem are decided by the implementation <-> specification <->
    hardware differential run only (listed as unproved_forms in the evidence). *)
 From Coq Require Import ZArith Bool List.
-From AxV Require Import Bits Outcome Codes Iced State Rt Mem Trace Exec ExecP FrameTac FrameP ByteStore MemP RegFile RegsP ISA CodeSem IsaP OperandP RmP AluRmP AluMemP AluImmP Alu32P AluImm32P UnaryP Unary32P TestP AdcP MovImmP SetccP NoCrashP StepCrashP Alu16P Alu8P Unary16P Unary8P ShiftP Shift32P Shift16P Shift8P MulP XmmP NoCrash2P.
-From AxG Require Import Flags Regs Operand Helpers Dispatch Frame Unimpl I_add I_sub I_cmp I_and I_xor I_div.
+From AxV Require Import Bits Outcome Codes Iced State Rt Mem Trace Exec ExecP FrameTac FrameP ByteStore MemP RegFile RegsP ISA CodeSem IsaP OperandP RmP AluRmP AluMemP AluImmP Alu32P AluImm32P UnaryP Unary32P TestP AdcP MovImmP SetccP NoCrashP StepCrashP Alu16P Alu8P Unary16P Unary8P ShiftP Shift32P Shift16P Shift8P MulP XmmP NoCrash2P MovxP Div32P Div16P.
+From AxG Require Import Flags Regs Operand Helpers Dispatch Frame Unimpl I_add I_sub I_cmp I_and I_xor I_div I_div I_idiv.
 Local Open Scope Z_scope.
 
 Theorem C19_refinement_implies_no_crash_2 : forall i s run,
@@ -43,6 +43,18 @@ Proof.
   - eapply mul_refines_no_crash; eassumption.
   - eapply xmm_refines_no_crash; eassumption.
 Qed.
+
+(* every division form: any dividend and divisor (zero, MIN / -1, quotients that do not fit), register or memory
+   operand, mapped or not - an error value or a result, never a crash, in both build configurations *)
+Theorem C19_div_idiv_no_crash : forall c i s,
+  wf_regs s -> Inv (mem s) -> i_op_count i = 1 ->
+  (rm32_shape i 0 -> i_code i = C_Div_rm32 -> no_crash (fst (instr_div_rm32 c i s))) /\
+  (rm32_shape i 0 -> i_code i = C_Idiv_rm32 -> no_crash (fst (instr_idiv_rm32 c i s))) /\
+  (rm16_shape i 0 -> i_code i = C_Div_rm16 -> no_crash (fst (instr_div_rm16 c i s))) /\
+  (rm16_shape i 0 -> i_code i = C_Idiv_rm16 -> no_crash (fst (instr_idiv_rm16 c i s))) /\
+  (rm8_shape i 0 -> i_code i = C_Div_rm8 -> no_crash (fst (instr_div_rm8 c i s))) /\
+  (rm8_shape i 0 -> i_code i = C_Idiv_rm8 -> no_crash (fst (instr_idiv_rm8 c i s))).
+Proof. exact div_idiv_no_crash. Qed.
 
 Print Assumptions cond_matches_sdm.
 
@@ -184,3 +196,4 @@ Print Assumptions C19_step_crash_sources.
 Print Assumptions C19_unsupported_is_error.
 Print Assumptions C19_refinement_implies_no_crash.
 Print Assumptions C19_refinement_implies_no_crash_2.
+Print Assumptions C19_div_idiv_no_crash.
